@@ -119,6 +119,20 @@ func c20Recv(w *W) {
 	default:
 		args = append(args, "--"+format)
 	}
+	// --subscribe may be given several times (any order, overlapping prefixes,
+	// the empty prefix, repeats): a message is printed iff it starts with at
+	// least one of them
+	var topics []string
+	if pat.flag == "--sub" && out.failFor < 0 && w.Choose(simrt.SShape, 2) == 0 {
+		pool := []string{"a", "ab", "abc", "b", "", "abd"}
+		for n := 1 + w.Choose(simrt.SShape, 3); n > 0; n-- {
+			t := pool[w.Choose(simrt.SShape, len(pool))]
+			topics = append(topics, t)
+			args = append(args, "--subscribe", t)
+		}
+		w.SetShape("subscribe", fmt.Sprintf("%q", topics))
+		w.Probe("several-subscribe-options")
+	}
 	w.Op("macat %v", args)
 	run := w.Do("macat.Run", func() (interface{}, error) { return nil, app.Run(args...) })
 	w.Sleep(5 * time.Millisecond)
@@ -136,7 +150,20 @@ func c20Recv(w *W) {
 	last := w.Now()
 	for i := 0; i < nmsg; i++ {
 		b := c20Body(w, i)
-		bodies = append(bodies, b)
+		if topics != nil {
+			b = append([]byte([]string{"a", "ab", "abc", "abd", "b", "x", "", "ac"}[w.Choose(simrt.SProg, 8)]), b...)
+			match := false
+			for _, t := range topics {
+				match = match || bytes.HasPrefix(b, []byte(t))
+			}
+			if match {
+				bodies = append(bodies, b)
+			} else {
+				w.Probe("publication-outside-the-subscriptions")
+			}
+		} else {
+			bodies = append(bodies, b)
+		}
 		out.cur = i
 		if err := peer.Send(b); err != nil {
 			w.Failf("HARNESS/send", "%v", err)
